@@ -12,9 +12,11 @@ Theorem c02_add_tables :
     at_new T c = Some s0 -> run_adds (at_entry T) md s0 ops = Some s ->
     N.of_nat (length (tbl_image s)) < 2 ^ 32 ->
     field_at (tbl_image s) 4 4 = N.of_nat (length (tbl_image s)).
-Proof.
-  intros T _ md c ops s0 s Hn Hr Hfit. apply image_len_field; [|exact Hfit].
-  exact (proj1 (addtable_reach T md c ops s0 s Hn Hr Hfit)).
-Qed.
+Proof. intros T _. exact (add_tables_len T). Qed.
+
+(* the fixed structures, incl. RSDP (36 at offset 20) and FACS (64 at offset 4): fixed_len_statement in Proofs/Registry.v *)
+Theorem c02_fixed_tables : fixed_len_statement.
+Proof. exact fixed_len. Qed.
 
 Print Assumptions c02_add_tables.
+Print Assumptions c02_fixed_tables.
